@@ -495,6 +495,42 @@ class Fresh:
                 raise Unsupported(type(s).__name__)
 
 
+def literal_val(node):
+    """a PyLite value for a literal expression, or None"""
+    if isinstance(node, ast.Constant):
+        v = node.value
+        if v is None:
+            return "VNone"
+        if isinstance(v, bool):
+            return "(VB %s)" % ("true" if v else "false")
+        if isinstance(v, int):
+            return "(VZ %s)" % cZ(v)
+        if isinstance(v, float):
+            f = Fraction(v)
+            return "(VQ (%d # %d))" % (f.numerator, f.denominator)
+        if isinstance(v, str):
+            return "(VS %s)" % cstr(v)
+        return None
+    if isinstance(node, (ast.Tuple, ast.List)):
+        items = [literal_val(x) for x in node.elts]
+        if any(i is None for i in items):
+            return None
+        return "(%s %s)" % ("VT" if isinstance(node, ast.Tuple) else "VL", lst(items))
+    return None
+
+
+def class_constants(cls):
+    """[(name, PyLite value)] for the class-level assignments `name = <literal>`, later ones first (as a lookup
+    table: the last assignment wins)"""
+    out = []
+    for n in cls.body:
+        if isinstance(n, ast.Assign) and len(n.targets) == 1 and isinstance(n.targets[0], ast.Name):
+            v = literal_val(n.value)
+            if v is not None:
+                out.insert(0, (n.targets[0].id, v))
+    return out
+
+
 def imported_names(tree):
     names = set()
     for n in tree.body:
@@ -543,6 +579,10 @@ def translate(path, names):
                         raise Unsupported("base class expression of " + cls.name)
                     bases.append(b.id)
                 found[qual] += "Definition bases_%s : list string := %s.\n" % (ident, lst([cstr(b) for b in bases]))
+                # the class's own constant attributes (`dims = ("northing", "easting")`): name = literal of
+                # strings / numbers / None / tuples / lists; anything else in the class body is not listed
+                found[qual] += "Definition classattrs_%s : list (string * val) := %s.\n" % (
+                    ident, lst(["(%s, %s)" % (cstr(k), v) for k, v in class_constants(cls)]))
     missing = [n for n in names if n not in found]
     if missing:
         raise Unsupported("functions not found: %s" % missing)
